@@ -27,6 +27,7 @@ ENV.pop("RUSTFLAGS", None)
 ENV.pop("RUSTUP_TOOLCHAIN", None)
 ENV["CARGO_TERM_COLOR"] = "never"
 
+REPLAY_CAP = int(os.environ.get("VERIF_REPLAY_CAP", "240"))  # native test not finished => HANG
 PROP_RE = re.compile(r"^C\d\d$")
 
 
@@ -234,12 +235,14 @@ def classify(h, rc, timed_out, text, parsed):
     unsupported = [c for c in failed if "unsupported_construct" in c["name"] or "is not currently supported by Kani" in c["desc"]
                    or "undefined function" in c["desc"] or "no_body" in c["name"] or "no-body" in c["name"]]
     real_fail = [c for c in failed if c not in unwind_fail and c not in unsupported]
-    if unwind_fail:
-        return "INCONCLUSIVE", "unwinding bound too small: %s" % unwind_fail[0]["loc"], []
     if unsupported:
         return "INCONCLUSIVE", "unsupported construct reachable: %s" % unsupported[0]["desc"][:200], []
     if real_fail:
         return "FAIL", real_fail[0]["desc"], real_fail
+    if unwind_fail:
+        # a loop ran past the bound that is proved for the unchanged tree: candidate non-termination /
+        # excessive iteration; it becomes a VIOLATION only if the native replay panics or hangs
+        return "FAIL", "loop bound exceeded (unwinding assertion): %s" % unwind_fail[0]["loc"], unwind_fail
     if undet:
         return "INCONCLUSIVE", "undetermined checks: %s" % undet[0]["desc"][:200], []
     if parsed["verdict"] != "SUCCESSFUL":
@@ -324,15 +327,34 @@ def native_replay(h, tests, descs, scratch, tag):
     results = {}
     for prof in ("dev", "release"):
         cmd = ["cargo", "kani", "playback", "-Z", "concrete-playback", "--lib"]
+        penv = None
         if prof == "release":
-            cmd += ["--release"]
-        cmd += ["--", "kani_concrete_playback", "--test-threads", "1"]
-        logp = os.path.join(rdir, "playback.%s.log" % prof)
-        rc, to, wall = run_capped(cmd, rdir + "/repo", 900, logp, mem_kb=32 * 1024 * 1024)
-        txt = open(logp, errors="replace").read()
+            # `cargo kani playback` has no --release: replicate its cargo invocation (see `playback -v`) with
+            # --release and without -Coverflow-checks=on, i.e. the profile users actually run
+            kd = os.path.expanduser("~/.kani/kani-0.68.0")
+            flags = ["-Zunstable-options", "-Ztrim-diagnostic-paths=no", "-Zhuman_readable_cgu_names",
+                     "-Zalways-encode-mir", "--cfg=kani", "-Zcrate-attr=feature(register_tool)",
+                     "-Zcrate-attr=register_tool(kanitool)", "--force-warn", "unstable_features",
+                     "--sysroot", kd + "/playback", "-L", kd + "/playback/lib", "--extern", "force:kani",
+                     "--extern", "noprelude,nounused:std=" + kd + "/playback/lib/libstd.rlib"]
+            penv = dict(ENV)
+            penv["CARGO_ENCODED_RUSTFLAGS"] = "\x1f".join(flags)
+            penv["RUSTC"] = kd + "/bin/kani-compiler"
+            penv["CARGO_TERM_PROGRESS_WHEN"] = "never"
+            cmd = [kd + "/toolchain/bin/cargo", "test", "--release", "--lib", "--target", "x86_64-unknown-linux-gnu",
+                   "-Zhost-config", "-Ztarget-applies-to-host", '--config=host.rustflags=["--cfg=kani_host"]']
+        # build first (not counted against the per-test hang cap)
+        run_capped(cmd + ["--", "__build_only__"], rdir + "/repo", 1200, os.path.join(rdir, "build.%s.log" % prof),
+                   mem_kb=32 * 1024 * 1024, env=penv)
         for n in names:
+            logp = os.path.join(rdir, "playback.%s.%s.log" % (prof, n))
+            rc, to, wall = run_capped(cmd + ["--", n, "--test-threads", "1"], rdir + "/repo", REPLAY_CAP, logp,
+                                      mem_kb=32 * 1024 * 1024, env=penv)
+            txt = open(logp, errors="replace").read()
             m = re.search(r"test \S*%s \.\.\. (\w+)" % re.escape(n), txt)
             st = m.group(1) if m else "missing"
+            if to:
+                st = "HANG"
             pm = re.search(r"---- \S*%s stdout ----\n(.*?)(?:\n----|\nfailures:)" % re.escape(n), txt, re.S)
             msg = ""
             if pm:
@@ -347,8 +369,9 @@ def native_replay(h, tests, descs, scratch, tag):
     detail = []
     for n, (kind, desc, src) in zip(names, tests):
         for prof, r in results[n].items():
-            ok = r["status"] == "FAILED" and "kani::assume should always hold" not in r["panic"] \
-                and "assume" not in r["panic"].lower()[:40]
+            infra = any(x in r["panic"] for x in ("det vals", "kani::assume", "assume should", "concrete_playback",
+                                                  "Expected ", "kani::any"))
+            ok = (r["status"] == "FAILED" and r["panic"] != "" and not infra) or r["status"] == "HANG"
             detail.append("%s/%s: %s panic=%r (solver check: %r)" % (n, prof, r["status"], r["panic"], desc))
             if ok:
                 reproduced = True
